@@ -47,6 +47,40 @@ CLAIMED = {
  "C28": ("Base tables recorded from real result rows; every projection computed by TLC (Breakdown.tla) and compared with the Mappings accessors",
          "For results of the real mapper on 1- and 2-Einsum micro-specs TLC computes all 16 energy, 8 action and 4 latency projections and the usage view from the raw per-Einsum columns; the harness compares with energy()/actions()/latency()/resource_usage() for every flag combination and with the Total columns.",
          "Derived views of one recorded table; float32 allowance on sums.", "5/C28"),
+
+ "C10": ("TLA+ set-filter/enumeration definitions (TileShapes.tla) evaluated by TLC; spec->code comparison for perfect sets and counts, code->spec verdicts (Trace_TileShapes) for imperfect sets",
+         "TLC evaluates PerfectCands for every outer <= 512 (thorough <= 4096, plus seeded larger sizes) and every inner dividing it, and Chains(n, pattern) by explicit enumeration of factorisation chains for n <= 64 and all patterns of length <= 4; results are compared exactly with get_possible_factor_sizes(.., imperfect=False, .., 1), _factorize and _count_factorizations. Imperfect candidate sets returned by the code are recorded and judged by TLC with ImperfectOK. Lemma jobs check the fast predicates and the recursive chain enumeration against independent definitions.",
+         "Exhaustive within the stated bounds; coarseness 1 only. 'Smallest shape' is decisive only where the integer reading and the multiple-of-inner reading agree the set is wrong (identical for inner = 1). Counter bounded to n <= 64.", "5/C10"),
+ "C20": ("Recorded mapper runs under varied environments validated as Run steps of Determinism.tla; schedules generated by TLC (MC_Schedules.tla) and imposed through the util/parallel.py hook",
+         "Per 1- and 2-Einsum micro-spec and metric set: baseline (1 worker), 4 real workers, 4 workers under TLC-generated and seeded schedules that permute execution and arrival order of every parallel() call, PYTHONHASHSEED 1/7(/42/12345), cold then warm cache_dir, each in a fresh interpreter. The set of (objective vector, LoopTree structure) pairs must equal the baseline's; TLC accepts the run sequence iff every Run step is enabled.",
+         "Schedules cover every pair of permutations only for call sites with <= 3 jobs (exhaustive generator), otherwise samples; jobs run in-process under the hook.", "5/C20"),
+ "C21": ("TLA+ definition (ExprEval!Expected) evaluated by TLC on enumerated/random definition sets, replayed into accelforge (B); evaluation algorithm model-checked (A); recorded eval_field orders validated by Trace_ExprEval (C)",
+         "TLC model-checks the evaluation algorithm (confluence, stuck-iff-cycle, terminal = least fixpoint with inner-shadows-outer) over all dependency graphs on 3-4 names and all a/ab placements in 2-3 nested or sibling scopes; generates every such case with every key order plus random cases of up to 16 definitions over six scopes with expected values or 'error'. Each case is evaluated by the real code through _spec_eval_expressions, calculate_component_costs and from_yaml and compared exactly; recorded evaluation orders are validated by TLC.",
+         "Bounded: exhaustive to 4 names in one scope and 2 names x 3 scopes; integers below 40000; + - * only. Excluded as ambiguous: self-reference over an outer or predefined name.", "5/C21"),
+ "C22": ("TLA+ definition of named sets and set-algebra Eval evaluated by TLC on enumerated/random expression trees and dictionaries, replayed into the front end; dictionary algorithm model-checked (SetExprOtherAlg)",
+         "TLC evaluates SetExpr!Eval/Assign/Overlap on every expression tree of depth <= 2 over 15 names for 20 (workload, Einsum) pairs, every tree of depth <= 3 over small alphabets for seed-selected pairs, random trees of depth <= 5 over random 1-4-Einsum workloads, and exhaustive/random Other-key dictionaries; each case is printed fully and minimally parenthesised and evaluated through Spec._spec_eval_expressions(einsum_name=..) as tensor_order_options/keep/may_keep/bits_per_value keys; sets compared exactly.",
+         "Depth 3 exhaustive only over small alphabets; depth 4-5 sampled. Not covered: .rank_variables, Above, MemoryObject.Tensors, call and conditional syntax.", "5/C22"),
+ "C23": ("TLA+ token emitter + grammar parser (EinsumSyntax) model-checked/simulated by TLC; finished strings replayed into Workload (spec->code)",
+         "TLC explores an emitter (Malform/Emit/Space/Finish) over verbose Einsum records exhaustively for a small alphabet and by simulation for 1-4 inputs, 0-4 ranks, 7 expression shapes and blank/tab white space at every gap; expected result = the TLA+ grammar Parse (verbose record or error); RoundTrip / MalformedIsMalformed are invariants. Every string is replayed into Workload(einsums=[..]) as string, verbose dict/list and with extra attributes; names, ordered (rank, expression) lists, output flags and merged attributes compared exactly.",
+         "Exhaustive only for the small alphabet; scalar tensors T[] only 'rejected or equal'; 23 corruption kinds.", "5/C23"),
+ "C24": ("TLA+ enumeration definitions (Geometry) evaluated by TLC on exhaustive/random workloads, replayed into the ISL/sympy workload geometry API",
+         "TLC enumerates every one-Einsum workload with bounds <= 3 (quick) / <= 4 (thorough), 1-2 ranks, projections a*u+b*v+c, and draws 1-3-Einsum workloads; bounds, operation counts, image cardinality, box-ness, stride and halo are set-comprehension definitions; each case is built as a real Workload and compared with get_rank_variable_bounds, n_computes, get_tensor_size (error or exact count for non-box images), get_stride_and_halo_of_einsum and compute_dense_tile_occupancy.",
+         "Halo with a constant offset accepts either reading; dense occupancy only for boxes at the origin; non-box images always take the RuntimeError path here.", "5/C24"),
+ "C25": ("TLA+ definition ArchTree!Path evaluated by TLC on enumerated/random trees, replayed into Spec._get_flattened_architecture; _flatten and iterate_hierarchically model-checked",
+         "TLC enumerates every well-formed architecture tree with <= 4 nodes (thorough <= 5) over Memory/Toll/Container/Compute/Fork/Hierarchical, every tree shape up to 7 nodes, and random 6-12-node trees of depth <= 4; each tree is built from the real classes and flattened per compute; names compared exactly.",
+         "Exhaustive only to 5 nodes / 7-node shapes; Array/Network and ill-formed trees not generated.", "5/C25"),
+ "C26": ("TLA+ definition ArchTree!Instances plus algorithm-variant models evaluated by TLC, replayed into Spec.calculate_component_costs; role-A model checking of iterate_hierarchically",
+         "Same generator with fanouts {1,2,3} on every leaf including Compute; expected instances and totals are ArchTree!Instances; calculate_component_costs is run on the real Arch and per_component_total_area/leak_power, total_area/leak_power compared exactly; the iterator with its shared parent list and the fanout loop are model-checked as actions.",
+         "Scales and n_parallel_instances fixed at 1 (C27's business).", "5/C25"),
+ "C27": ("TLA+ definition (ComponentCosts!RunOnce) evaluated by TLC on parameter/history grids, replayed call by call into Spec.calculate_component_costs; call model checked as a transition system with a negative lemma",
+         "TLC proves Stable (computed kinds = base x scales) for the apply-once Calculate model over all histories of up to 3 calls over all 15 flag sets and shows the re-apply model violates it; enumerates every vector of six scale factors over {1/2,1,2} x n_parallel_instances, every history of length <= 3 over four flag sets, and random 2-3-component architectures; after every call the real area, leak power and per-action energy/throughput are compared exactly.",
+         "evaluate_mapping and the mapper reject a costed spec by assertion, so only the public method is replayed; hwcomponents-modelled costs not covered.", "5/C27"),
+ "C29": ("TLA+ definition of rename resolution and expected_count rejection evaluated by TLC on enumerated/random rename tables, replayed into Spec/Workload/Renames evaluation",
+         "TLC evaluates Renames!Resolve/Rejected on every placement pattern (absent / Einsum-local / top-level per Einsum; default or not) with 2-3 sources per kind (tensor and rank-variable renames) and expected_count in {none,1,2} for 1 name x 2 Einsums (quick), additionally 1x3 and 2x2 (thorough), plus random tables; every Einsum's evaluated renames are read through Spec._spec_eval_expressions(einsum_name=e).",
+         "Fixed 3-Einsum chain; a name is never placed both locally and at top level for one Einsum.", "5/C29"),
+ "C30": ("Network.tla packet-routing transition system model-checked for confluence; deterministic schedule per case prints terminal counters, replayed into per_loop_transfer_cost, exact rational comparison",
+         "TLC routes every value as a packet hop by hop on a 1-D mesh line or through a central switch with per-link counters; all interleavings are explored for fanout <= 4-5 and proven confluent; for every fanout <= 32, stride <= 8, both topologies, multicast and unicast the terminal hop count and maximum link counter are replayed into get_topology_model(t).per_loop_transfer_cost with a non-distributed source; total_cost and max_traffic must be exactly equal.",
+         "Integer volumes; max_hops not compared. Known finding: fanout-1 multicast reports max_traffic = volume.", "5/C30"),
 }
 NOT_YET = "check not built yet in this round; see DESIGN.md section 5 for the planned TLA+ module"
 
